@@ -59,11 +59,14 @@ Definition read (fuel : nat) (e : entry) (f : lfsys) : option str :=
   | Some t => match lget t f with Some (File c) => Some c | _ => None end
   | None => None
   end.
-(* os.SameFile of the two names after os.Stat: both denote the same existing file *)
+(* os.SameFile of the opened source and os.Lstat(dest): the destination NAME ITSELF is the file the source denotes (a name
+   that only leads to that file through a link is a name like any other, and is replaced) - Lstat since the thorough tier
+   found, minutes before the end of the session, a Move that left a chain of links dangling: with os.Stat a destination
+   link that led to the source link's target counted as "the same file", nothing was copied, and the source link was removed *)
 Definition same_file (fuel : nat) (a b : entry) (f : lfsys) : bool :=
-  match denotes fuel a f, denotes fuel b f with
-  | Some x, Some y => entry_eqb x y && match lget x f with Some (File _) => true | _ => false end
-  | _, _ => false
+  match denotes fuel a f with
+  | Some x => entry_eqb x b && match lget x f with Some (File _) => true | _ => false end
+  | None => false
   end.
 
 (* internal.Copy as it was: os.Create(dest) opens what the name DENOTES *)
@@ -94,9 +97,12 @@ Theorem copy_replace_delivers fuel src dst f f' c : copy_replace fuel src dst f 
   read fuel dst f' = Some c.
 Proof.
   unfold copy_replace. destruct (same_file fuel src dst f) eqn:SF.
-  - intros E R. inversion E; subst. unfold same_file in SF. unfold read in *.
-    destruct (denotes fuel src f') as [x|]; [|discriminate]. destruct (denotes fuel dst f') as [y|]; [|discriminate].
-    apply andb_true_iff in SF as [SF _]. apply entry_eqb_eq in SF. now subst.
+  - intros E R. inversion E; subst. unfold same_file in SF. unfold read in R.
+    destruct (denotes fuel src f') as [x|] eqn:D; [|discriminate].
+    apply andb_true_iff in SF as [E1 E2]. apply entry_eqb_eq in E1. subst x.
+    destruct (lget dst f') as [[c0|t]|] eqn:G; try discriminate. unfold read.
+    assert (Dd : denotes fuel dst f' = Some dst) by (destruct fuel; cbn [denotes]; now rewrite G).
+    rewrite Dd, G. exact R.
   - intros E R. rewrite R in E. inversion E; subst. unfold read.
     assert (D : denotes fuel dst (lput dst (File c) f) = Some dst).
     { destruct fuel; cbn [denotes]; now rewrite lget_lput_same. }
